@@ -1,4 +1,5 @@
 mod btree;
+mod cypher;
 mod dump;
 mod obs;
 mod storage;
@@ -79,6 +80,13 @@ fn main() {
             let out = std::fs::File::create(a.get("out").expect("--out")).unwrap();
             let mut w = BufWriter::new(out);
             let stats = btree::run(&seqs, &mut w, &scratch);
+            println!("{stats}");
+        }
+        "cypher" => {
+            let sessions = read_ndjson(a.get("in").expect("--in"));
+            let out = std::fs::File::create(a.get("out").expect("--out")).unwrap();
+            let mut w = BufWriter::new(out);
+            let stats = cypher::run_sessions(&sessions, &mut w, &scratch);
             println!("{stats}");
         }
         other => {
